@@ -5,7 +5,8 @@
 
 // a: n, pattern bits (off-diagonal position p = i*n+j stored iff bit set; diagonal always stored), column order
 //    (0 ascending, 1 descending, 2 rotated by row, 3 diagonal last), constructor (0 triplets, 1 raw arrays, 2 nz_per_row + fill),
-//    number of right-hand sides, premise (0 none: pivots are premises; 1 strict row diagonal dominance, positive diagonal, margin 1e-9)
+//    number of right-hand sides, premise (0 none: pivots are premises; 1 strict row diagonal dominance, positive diagonal, margin 1e-9;
+//    2 every pivot of the elimination without pivoting at least 1e-9 in modulus)
 VENTRY(h_lu)
 {
     const int n = a[0]; const unsigned pat = (unsigned)a[1]; const int order = a[2], ctor = a[3], nrhs = a[4], premise = a[5];
@@ -27,6 +28,19 @@ VENTRY(h_lu)
             for (int j = 0; j < n; j++) if (j != i) off += fabs(A[i][j]);
             vassume_le(off + 1e-9, A[i][i]);   // strict dominance with a margin above the solver's 1e-12 pivot guard
         }
+    if (premise == 2) {
+        // "admits an LU factorisation without pivoting": every pivot of the harness's own dense elimination is non-zero, with a
+        // margin above the solver's 1e-12 guard.  Then the solver must return (its exit path is infeasible), also when an entry of
+        // the matrix's own diagonal is zero.
+        std::vector<std::vector<double>> M = A;
+        for (int k = 0; k < n; k++) {
+            vassume_le(1e-9, fabs(M[k][k]));
+            for (int i = k + 1; i < n; i++) {
+                const double l = M[i][k] / M[k][k];
+                for (int j = k; j < n; j++) M[i][j] = M[i][j] - l * M[k][j];
+            }
+        }
+    }
     using triplet = SparseMatrixCSR<double>::triplet_type;
     std::unique_ptr<SparseMatrixCSR<double>> M;
     if (ctor == 0) {
